@@ -6,6 +6,7 @@ from circuits.core import Event
 META_EXCLUDE = set(dir(Event()))
 META_EXCLUDE.add('node_call_id')
 META_EXCLUDE.add('node_sock')
+META_EXCLUDE.add('node_protocol')
 META_EXCLUDE.add('node_without_result')
 META_EXCLUDE.add('success_channels')
 
